@@ -20,6 +20,12 @@
 (*   PeerFail(q)            monitor alert -> exactly one survivor re-homes *)
 (*                          the under-replicated pins (ClusterAPI.tla C10, *)
 (*                          Monitor.tla C09)                               *)
+(*   IpfsDown(p)/IpfsHeal(p) p's IPFS daemon stops / resumes answering; an  *)
+(*                          instruction carried out meanwhile fails and    *)
+(*                          leaves an error entry in p's tracker           *)
+(*   RecoverAll(p)          the operator's (or the periodic) recover: every *)
+(*                          error entry is retried with the pin the shared *)
+(*                          state holds now (Tracker.tla Recover, C05)     *)
 (*                                                                         *)
 (* The end-to-end driver (harness/c05_e2e) runs TLC-simulated behaviours   *)
 (* of this module on real Cluster peers (real allocator, real stateless    *)
@@ -28,7 +34,8 @@
 (***************************************************************************)
 EXTENDS Integers, Sequences, FiniteSets, TLC
 
-CONSTANTS PEERS, CIDS, MaxOps
+CONSTANTS PEERS, CIDS, MaxOps,
+          MaxOut     \* how many daemon outages a behaviour may contain
 
 VARIABLES
     log,      \* the committed sequence of pinset operations
@@ -36,9 +43,12 @@ VARIABLES
     todo,     \* peer -> sequence of tracker instructions not yet carried out
     ipfs,     \* peer -> cid -> "none" | "rec" | "dir"
     up,       \* live peers
+    dok,      \* peers whose IPFS daemon answers
+    failed,   \* peer -> cid -> "none" | "pin" | "unpin": the error entry p's tracker holds for the cid
+    outs,     \* outages so far
     act
 
-vars == <<log, applied, todo, ipfs, up, act>>
+vars == <<log, applied, todo, ipfs, up, dok, failed, outs, act>>
 
 NoPin == [k |-> "none", mode |-> "-", allocs |-> {}, everywhere |-> FALSE, rmin |-> 0, rmax |-> 0, exp |-> FALSE]
 
@@ -61,6 +71,9 @@ Init ==
     /\ todo = [p \in PEERS |-> <<>>]
     /\ ipfs = [p \in PEERS |-> [c \in CIDS |-> "none"]]
     /\ up = PEERS
+    /\ dok = PEERS
+    /\ failed = [p \in PEERS |-> [c \in CIDS |-> "none"]]
+    /\ outs = 0
     /\ act = [name |-> "Init"]
 
 \* allocations a correct allocator may choose (C03): between rmin and rmax
@@ -81,13 +94,13 @@ Pin(at, c, mode, rmin, rmax) ==
                     log' = Append(log, [k |-> "pin", cid |-> c,
                          pin |-> [k |-> "pin", mode |-> mode, allocs |-> a, everywhere |-> FALSE, rmin |-> rmin, rmax |-> rmax, exp |-> FALSE]])
     /\ act' = [name |-> "Pin", at |-> at, cid |-> c, mode |-> mode, rmin |-> rmin, rmax |-> rmax]
-    /\ UNCHANGED <<applied, todo, ipfs, up>>
+    /\ UNCHANGED <<applied, todo, ipfs, up, dok, failed, outs>>
 
 Unpin(at, c) ==
     /\ Len(log) < MaxOps /\ at \in up /\ Pinset[c].k = "pin"
     /\ log' = Append(log, [k |-> "unpin", cid |-> c, pin |-> NoPin])
     /\ act' = [name |-> "Unpin", at |-> at, cid |-> c]
-    /\ UNCHANGED <<applied, todo, ipfs, up>>
+    /\ UNCHANGED <<applied, todo, ipfs, up, dok, failed, outs>>
 
 \* pin update (C04): the new CID gets the source's mode, factors and allocations; the source stays
 PinUpdate(at, from, to) ==
@@ -95,14 +108,14 @@ PinUpdate(at, from, to) ==
     /\ Pinset[from].k = "pin" /\ Pinset[to].k = "none"
     /\ log' = Append(log, [k |-> "pin", cid |-> to, pin |-> [Pinset[from] EXCEPT !.exp = FALSE]])
     /\ act' = [name |-> "PinUpdate", at |-> at, from |-> from, cid |-> to]
-    /\ UNCHANGED <<applied, todo, ipfs, up>>
+    /\ UNCHANGED <<applied, todo, ipfs, up, dok, failed, outs>>
 
 \* a pin is given an expiry that has now passed (time is not modelled: the pin is re-logged as expired)
 PinExpiring(at, c) ==
     /\ Len(log) < MaxOps /\ at \in up /\ Pinset[c].k = "pin" /\ ~Pinset[c].exp
     /\ log' = Append(log, [k |-> "pin", cid |-> c, pin |-> [Pinset[c] EXCEPT !.exp = TRUE]])
     /\ act' = [name |-> "PinExpiring", at |-> at, cid |-> c]
-    /\ UNCHANGED <<applied, todo, ipfs, up>>
+    /\ UNCHANGED <<applied, todo, ipfs, up, dok, failed, outs>>
 
 \* StateSync on every live peer (C10): each expired pin is unpinned, by exactly one peer
 StateSyncAll ==
@@ -111,7 +124,7 @@ StateSyncAll ==
        IN /\ ex # {}
           /\ log' = log \o [i \in 1..Cardinality(ex) |-> [k |-> "unpin", cid |-> sq[i], pin |-> NoPin]]
     /\ act' = [name |-> "StateSyncAll"]
-    /\ UNCHANGED <<applied, todo, ipfs, up>>
+    /\ UNCHANGED <<applied, todo, ipfs, up, dok, failed, outs>>
 
 \* consensus applies the next entry on p and hands it to the tracker
 Apply(p) ==
@@ -119,20 +132,49 @@ Apply(p) ==
     /\ applied' = [applied EXCEPT ![p] = @ + 1]
     /\ todo' = [todo EXCEPT ![p] = Append(@, log[applied[p] + 1])]
     /\ act' = [name |-> "Apply", p |-> p]
-    /\ UNCHANGED <<log, ipfs, up>>
+    /\ UNCHANGED <<log, ipfs, up, dok, failed, outs>>
 
-\* tracker + connector + (healthy) daemon carry out the oldest instruction
+\* tracker + connector + daemon carry out the oldest instruction; with the daemon down (or a direct
+\* pin over a recursive one, C05 finding) the call fails and the tracker keeps an error entry
 TrackerStep(p) ==
     /\ p \in up /\ todo[p] # <<>>
-    /\ LET op == Head(todo[p]) IN
-        ipfs' = [ipfs EXCEPT ![p][op.cid] =
-                    IF op.k = "unpin" THEN "none"
-                    ELSE IF AssignedMode(op.pin, p) = "none" THEN "none"
-                    ELSE IF @ = "rec" /\ op.pin.mode = "dir" THEN @      \* direct over recursive is refused (C05 finding)
-                    ELSE AssignedMode(op.pin, p)]
+    /\ LET op   == Head(todo[p])
+           want == IF op.k = "unpin" THEN "none" ELSE AssignedMode(op.pin, p)
+           refused == ipfs[p][op.cid] = "rec" /\ want = "dir"
+       IN IF p \in dok /\ ~refused
+            THEN /\ ipfs' = [ipfs EXCEPT ![p][op.cid] = want]
+                 /\ failed' = [failed EXCEPT ![p][op.cid] = "none"]
+            ELSE /\ ipfs' = ipfs
+                 /\ failed' = [failed EXCEPT ![p][op.cid] = IF want = "none" THEN "unpin" ELSE "pin"]
     /\ todo' = [todo EXCEPT ![p] = Tail(@)]
     /\ act' = [name |-> "TrackerStep", p |-> p]
-    /\ UNCHANGED <<log, applied, up>>
+    /\ UNCHANGED <<log, applied, up, dok, outs>>
+
+IpfsDown(p) ==
+    /\ p \in up /\ p \in dok /\ outs < MaxOut
+    /\ dok' = dok \ {p} /\ outs' = outs + 1
+    /\ act' = [name |-> "IpfsDown", p |-> p]
+    /\ UNCHANGED <<log, applied, todo, ipfs, up, failed>>
+
+IpfsHeal(p) ==
+    /\ p \in up /\ p \notin dok
+    /\ dok' = dok \cup {p}
+    /\ act' = [name |-> "IpfsHeal", p |-> p]
+    /\ UNCHANGED <<log, applied, todo, ipfs, up, failed, outs>>
+
+\* RecoverAll on p (daemon answering, nothing else in flight on p): every error entry is retried, a
+\* failed pin with the pin the shared state holds now, a failed unpin as an unpin
+RecoverAll(p) ==
+    /\ p \in up /\ p \in dok /\ applied[p] = Len(log) /\ todo[p] = <<>>
+    /\ LET fs == {c \in CIDS : failed[p][c] # "none"}
+           sq == CHOOSE s \in [1..Cardinality(fs) -> fs] : \A i, j \in DOMAIN s : i # j => s[i] # s[j]
+       IN /\ fs # {}
+          /\ todo' = [todo EXCEPT ![p] = [i \in 1..Cardinality(fs) |->
+                        IF failed[p][sq[i]] = "pin" /\ Pinset[sq[i]].k = "pin"
+                          THEN [k |-> "pin", cid |-> sq[i], pin |-> Pinset[sq[i]]]
+                          ELSE [k |-> "unpin", cid |-> sq[i], pin |-> NoPin]]]
+    /\ act' = [name |-> "RecoverAll", p |-> p]
+    /\ UNCHANGED <<log, applied, ipfs, up, dok, failed, outs>>
 
 \* q fails; exactly one survivor re-homes every pin that fell below its minimum
 PeerFail(q) ==
@@ -153,7 +195,7 @@ PeerFail(q) ==
                IN log' = log \o [i \in 1..Cardinality(chg) |->
                             [k |-> "pin", cid |-> seqc[i], pin |-> [ps[seqc[i]] EXCEPT !.allocs = newallocs[seqc[i]]]]]
     /\ act' = [name |-> "PeerFail", q |-> q]
-    /\ UNCHANGED <<applied, todo, ipfs>>
+    /\ UNCHANGED <<applied, todo, ipfs, dok, failed, outs>>
 
 Next ==
     \/ \E at \in PEERS, c \in CIDS, m \in {"rec", "dir"} :
@@ -162,6 +204,7 @@ Next ==
     \/ \E at \in PEERS, c, d \in CIDS : PinUpdate(at, c, d)
     \/ StateSyncAll
     \/ \E p \in PEERS : Apply(p) \/ TrackerStep(p) \/ PeerFail(p)
+    \/ \E p \in PEERS : IpfsDown(p) \/ IpfsHeal(p) \/ RecoverAll(p)
 
 Spec == Init /\ [][Next]_vars
 
@@ -178,7 +221,20 @@ E2EOn(ps, ip, live) ==
         \/ ip[p][c] = AssignedMode(ps[c], p)
         \/ (ip[p][c] = "rec" /\ AssignedMode(ps[c], p) = "dir")
 
-E2EInv == Settled => E2EOn(Pinset, ipfs, up)
+NoFailed == \A p \in up : \A c \in CIDS : failed[p][c] = "none" \/ (failed[p][c] = "pin" /\ ipfs[p][c] = "rec" /\ AssignedMode(Pinset[c], p) = "dir")
+E2EInv == (Settled /\ NoFailed) => E2EOn(Pinset, ipfs, up)
+
+\* an error entry is never silently lost: while a live peer's daemon differs from its assignment and
+\* nothing is in flight, the tracker holds an error entry for that CID (so that recover can repair it)
+ErrorKept == Settled => \A p \in up : \A c \in CIDS :
+    (ipfs[p][c] # AssignedMode(Pinset[c], p)) => failed[p][c] # "none"
+
+\* liveness: with fairness on the internal steps, healing and recovering, the cluster always gets
+\* back to agreement between daemons and pinset
+Fair == /\ \A p \in PEERS : WF_vars(Apply(p)) /\ WF_vars(TrackerStep(p)) /\ WF_vars(IpfsHeal(p)) /\ SF_vars(RecoverAll(p))
+LiveSpec == Spec /\ Fair
+Agreement == Settled /\ E2EOn(Pinset, ipfs, up)
+EventuallyAgrees == []<>Agreement
 
 \* allocations name live peers at the time they are made and respect the factors
 AllocInv == \A c \in CIDS :
